@@ -129,6 +129,21 @@ func liveEvents(l *items.L, evs []impl.Event) int {
 			l.Open().N(7).N(uint64(e.JP)).N(e.ResGas).B(e.Output)
 			optE(e.HasErr, e.Err)
 			l.Close()
+		case "state":
+			// a LOGn instruction about to execute: what CaptureState shows a tracer that collects logs
+			if e.HasErr || e.Op < 0xa0 || e.Op > 0xa4 {
+				continue
+			}
+			nt := int(e.Op - 0xa0)
+			n := len(e.Stack)
+			if n < 2+nt || !e.Stack[n-1].IsUint64() || !e.Stack[n-2].IsUint64() {
+				continue
+			}
+			l.Open().N(8).Big(addrN(e.Self)).Open()
+			for i := 0; i < nt; i++ {
+				l.Big(e.Stack[n-3-i].ToBig())
+			}
+			l.Close().B(zext(e.Mem, e.Stack[n-1].Uint64(), e.Stack[n-2].Uint64())).Close()
 		default:
 			continue
 		}
@@ -152,8 +167,8 @@ func cmdCallTracerLive(args []string) error {
 		rr := r.Fork()
 		cs, w, code0 := genExecCase(rr, u, forks)
 		cs.Debug, cs.AspLog = true, true
-		onlyTop, inclPre := rr.Intn(5) == 0, rr.Intn(2) == 0
-		ctCfg := fmt.Sprintf(`{"onlyTopCall":%v,"withLog":%v}`, onlyTop, rr.Bool())
+		onlyTop, inclPre, withLog := rr.Intn(5) == 0, rr.Intn(2) == 0, rr.Intn(3) != 0
+		ctCfg := fmt.Sprintf(`{"onlyTopCall":%v,"withLog":%v}`, onlyTop, withLog)
 		flCfg := fmt.Sprintf(`{"includePrecompiles":%v,"convertParityErrors":false}`, inclPre)
 		ct, err1 := tracers.DefaultDirectory.New("callTracer", &tracers.Context{}, json.RawMessage(ctCfg))
 		fl, err2 := tracers.DefaultDirectory.New("flatCallTracer", &tracers.Context{}, json.RawMessage(flCfg))
@@ -179,7 +194,7 @@ func cmdCallTracerLive(args []string) error {
 			cc := ctCase{Idx: len(cases), Stream: "live"}
 			if kind == 0 {
 				cc.Tracer, cc.Config = "callTracer", ctCfg
-				l.Bool(onlyTop)
+				l.Bool(onlyTop).Bool(withLog)
 			} else {
 				cc.Tracer, cc.Config = "flatCallTracer", flCfg
 				l.Bool(inclPre).N(0)
